@@ -12,7 +12,7 @@ use crate::pipeline::*;
 use crate::rng::{fnv64, Rng};
 use crate::vals::*;
 
-fn envs() -> Vec<(String, Env)> {
+pub fn envs() -> Vec<(String, Env)> {
     let mut v = vec![];
     let locks = [
         ("lock0", elements::LockTime::ZERO),
@@ -230,7 +230,7 @@ fn judge_envs(cx: &mut Ctx, text: &str, built: &Compiled, wv: &simfony::WitnessV
     envs: &[(String, Env)], label: &str, sample: bool) {
     for (ename, env) in envs {
         cx.report.evaluations += 1;
-        let sig = format!("prune:{:016x}:{ename}", fnv64(text.as_bytes()));
+        let mut sig = format!("prune:{:016x}:{ename}", fnv64(text.as_bytes()));
         let base = match exec_redeem(unpruned.redeem(), env) {
             Outcome::Ok(r) => r.is_ok(),
             o => {
@@ -255,7 +255,28 @@ fn judge_envs(cx: &mut Ctx, text: &str, built: &Compiled, wv: &simfony::WitnessV
                         }
                         match exec_redeem(&d, env) {
                             Outcome::Ok(Ok(())) => {}
-                            o => problems.push(format!("the pruned program does not succeed under env: {}", o.brief())),
+                            o => {
+                                problems.push(format!("the pruned program does not succeed under env: {o:?}").chars().take(200).collect());
+                                // diagnosis of the recorded finding F15: the program as returned (in
+                                // memory) succeeds, but it holds two assertions of one identity hash
+                                // (IHR) that hide opposite branches; the encoding shares nodes by IHR,
+                                // so the decoded program has one of the two at both places
+                                if matches!(exec_redeem(sat.redeem(), env), Outcome::Ok(Ok(()))) && problems.len() == 1 {
+                                    let mut hidden: std::collections::HashMap<[u8; 32], (bool, bool)> = std::collections::HashMap::new();
+                                    walk_redeem(sat.redeem(), &mut |n| {
+                                        use simfony::simplicity::node::Inner;
+                                        let e = hidden.entry(n.ihr().to_byte_array()).or_insert((false, false));
+                                        match n.inner() {
+                                            Inner::AssertL(..) => e.1 = true,
+                                            Inner::AssertR(..) => e.0 = true,
+                                            _ => {}
+                                        }
+                                    });
+                                    if hidden.values().any(|(l, r)| *l && *r) {
+                                        sig = "prune:ihr-collision-of-opposite-assertions".to_string();
+                                    }
+                                }
+                            }
                         }
                     }
                     o => problems.push(format!("the pruned program's encoding does not decode: {}", o.map(|_| ()).brief())),
